@@ -68,6 +68,11 @@ constexpr std::array<uint8_t, 256> k_rest = []() consteval {
 template <class result_type>
 ada_never_inline bool try_parse_simple_absolute(std::string_view input,
                                                 result_type& out) {
+#ifdef ADA_URL_ADA_VERIF
+  if (ada_verif_buggify(101)) {
+    return false;  // decline: state machine decides
+  }
+#endif
   constexpr bool is_ada_url = std::is_same_v<result_type, ada::url>;
   constexpr bool is_aggregator =
       std::is_same_v<result_type, ada::url_aggregator>;
@@ -243,6 +248,9 @@ after_rest:
     }
   }
 
+#ifdef ADA_URL_ADA_VERIF
+  ada_verif_probe(201);
+#endif
   const bool need_slash = !has_path;
   out.type = scheme_type;
   out.is_valid = true;
